@@ -184,7 +184,7 @@ func implDoc(rm *protocol.ResolutionModel) map[string]any {
 
 func Run(r *core.Run) {
 	r.Rule = "request builders: 5 key types x 2 hash algorithms x (opaque document | patch list of each of the 8 actions) x anchor origin x anchoring window for create / update / recover / deactivate, applied in order; builder refusals; " +
-		"Sidetree client: lifecycles create -> update^<=2 -> recover -> update^<=2 -> deactivate over every option subset of size <= 2 of {add/replace/remove key, add/remove service, add/remove also-known-as}, 4 signer key types, commitment algorithm 18/19, states deduplicated per phase; " +
+		"Sidetree client: lifecycles create -> update^<=2 -> recover -> update^<=2 -> deactivate over every option subset of size <= 2 (thorough 3) of {add/replace/remove key, add/remove service, add/remove also-known-as}, 4 signer key types, commitment algorithm 18/19, states deduplicated per phase; " +
 		"every accepted request: anchored form = canonical bytes, same suffix/type/origin, same state; distinct = distinct requests; non-trivial = all"
 	r.Assumptions = []string{"intent = reference fold (ref/patch) of what the caller asked for; key and service lists compared by id (order-insensitive), also-known-as as a set",
 		"client keys always carry at least one purpose (the client's key type cannot express a purpose-less key: observed, not judged)"}
@@ -593,6 +593,11 @@ func lifecycles(r *core.Run) {
 		subsets = append(subsets, []int{i})
 		for j := i + 1; j < len(atoms); j++ {
 			subsets = append(subsets, []int{i, j})
+			if r.Thorough() {
+				for k := j + 1; k < len(atoms); k++ {
+					subsets = append(subsets, []int{i, j, k})
+				}
+			}
 		}
 	}
 	signerTypes := []string{"Ed25519", "P-256", "P-384", "secp256k1"}
